@@ -159,9 +159,9 @@ func runC07(c *core.Ctx) {
 			})
 			return k && lc.Equal(core.ParseLinCmp("pairs == 0"))
 		}
-		_, skipDrop := core.PathQuery{F: f, From: f.Entry(), Avoid: core.PointSet(drops[0].Pt), AvoidEdge: allDisjunctsMatch(f, nothing), TargetExit: true}.Find()
+		_, skipDrop := core.PathQuery{F: f, From: f.Entry(), Avoid: core.PointSet(drops[0].Pt), AvoidEdge: c04AllAltsMatch(f, nothing), TargetExit: true}.Find()
 		nilCB := fieldNilFact(f, "vecengine.Callbacks.OnDropNotFlushed", true)
-		_, skipCB := core.PathQuery{F: f, From: f.Entry(), Avoid: core.PointSet(cbs[0].Pt), AvoidEdge: allDisjunctsMatch(f, func(ft core.Fact) bool { return nothing(ft) || nilCB(ft) }), TargetExit: true}.Find()
+		_, skipCB := core.PathQuery{F: f, From: f.Entry(), Avoid: core.PointSet(cbs[0].Pt), AvoidEdge: c04AllAltsMatch(f, func(ft core.Fact) bool { return nothing(ft) || nilCB(ft) }), TargetExit: true}.Find()
 		c.Check(!skipDrop && !skipCB, "unflushed data => overlay dropped and caches notified", "T7 Pairing", f.Pos(), "unless nothing is unflushed, the overlay is dropped and OnDropNotFlushed runs", "unflushed index data can survive DropNotFlushed, or the caches are not told")
 		// vecfc side: covered by C05.drop (vector caches) + tmpid
 		dn := c.Fn(vfIdx + ".onDropNotFlushed")
